@@ -895,7 +895,16 @@ Section Order.
       destruct Hr as [-> | ->]; unfold kC, kP; cbn [fold_left is_flat fst head_of snd andb app];
         rewrite Hn; cbn [andb app]; try rewrite order_steps_e1; reflexivity. }
     match goal with |- context [meta_step2 meta e1 ?r] => rewrite (Hs2 r Hf) end.
-    unfold set_params. unfold kP at 2. rewrite max_len_single. reflexivity.
+    (* right-hand side: a single nested key passes steps 1 and 2 untouched *)
+    unfold set_params. unfold kP at 2. rewrite max_len_single. cbn [List.length].
+    rewrite set_params_fuel_S.
+    assert (H1 : meta_step1 meta e2 [kP] = (e2, [kP])).
+    { unfold meta_step1, kP. destruct (meta (cls_of e2)) as [[a sp']|]; [|reflexivity].
+      cbn [lookup path_eqb fst]. rewrite andb_false_r. reflexivity. }
+    rewrite H1.
+    assert (H2 : meta_step2 meta e2 [kP] = Ok (e2, [kP])).
+    { unfold meta_step2, kP. destruct (meta (cls_of e2)); reflexivity. }
+    rewrite H2. reflexivity.
   Qed.
 
   Theorem order_list_component_param :
